@@ -8,6 +8,7 @@ package main
 import (
 	"io"
 	"log"
+	"sort"
 
 	"verifharness/cmd/c05/drv"
 	. "verifharness/common"
@@ -183,6 +184,121 @@ func gen(a Args, out *Out) {
 			h.Size()
 			h.Probe()
 			emit("random", h)
+		})
+	}
+
+	// 5. several timers in ONE bucket of the wheel (same due tick for the near wheel, due
+	// ticks within one span of an outer level); the head / a middle one / the tail is
+	// cancelled and unlinked by the worker; another timer is then started into the same
+	// bucket; finally every due tick is visited: each timer that was not cancelled must be
+	// delivered on its due tick and leave Size()/IsScheduled().  (A bucket whose tail
+	// pointer went stale loses the timer appended next.)
+	for k := 0; k < 54*scale && k < 54*8; k++ {
+		both(func(impl int64) {
+			r := rng.Fork()
+			level := k % 3 // 0 near, 1 tvec[0], 2 tvec[1]
+			cur0 := pos(r)
+			tt0 := int64(r.PickI64(0, 500))
+			h := drv.NewHist(impl, cur0, tt0)
+			n := r.Range(2, 5)
+			span := int64(1)
+			switch level {
+			case 1:
+				span = 256
+			case 2:
+				span = 16384
+			}
+			// delays whose expiry ticks cur0+d fall into one span-aligned block
+			var base int64
+			if level == 0 {
+				base = int64(r.Range(1, 250))
+			} else {
+				base = span*int64(r.Range(2, 3)) - int64(cur0)%span
+			}
+			delay := func() int64 {
+				if level == 0 {
+					return base
+				}
+				return base + int64(r.Intn(int(span)))
+			}
+			type tmr struct{ id, due int64 }
+			var ts []tmr
+			for i := 0; i < n; i++ {
+				d := delay()
+				id := h.Start(d)
+				h.HandleAdd()
+				ts = append(ts, tmr{id, tt0 + d})
+			}
+			victim := 0
+			switch (k / 3) % 3 {
+			case 1:
+				victim = n / 2
+			case 2:
+				victim = n - 1 // the tail of the bucket
+			}
+			h.Cancel(ts[victim].id)
+			if r.Chance(1, 4) {
+				h.Probe()
+			}
+			h.HandleDel()
+			now := tt0
+			if r.Chance(1, 3) {
+				e := int64(r.Range(1, 3))
+				if level == 0 && base <= e+1 {
+					e = 0
+				}
+				if e > 0 {
+					h.Adv(e)
+					now += e
+				}
+			}
+			// one or two more timers into the same bucket
+			for j := 0; j < r.Range(1, 2); j++ {
+				d := delay() - (now - tt0)
+				id := h.Start(d)
+				h.HandleAdd()
+				ts = append(ts, tmr{id, now + d})
+			}
+			if r.Chance(1, 3) {
+				// cancel the new tail as well and append once more
+				last := len(ts) - 1
+				h.Cancel(ts[last].id)
+				h.HandleDel()
+				ts[last].due = -1
+				d := delay() - (now - tt0)
+				id := h.Start(d)
+				h.HandleAdd()
+				ts = append(ts, tmr{id, now + d})
+			}
+			ts[victim].due = -1
+			h.Probe()
+			h.Size()
+			var dues []int64
+			for _, t := range ts {
+				if t.due >= 0 {
+					dues = append(dues, t.due)
+				}
+			}
+			sort.Slice(dues, func(a, b int) bool { return dues[a] < dues[b] })
+			for _, due := range dues {
+				if due <= now {
+					continue
+				}
+				if due-1 > now {
+					h.Adv(due - 1 - now)
+				}
+				h.Adv(1)
+				now = due
+			}
+			h.Adv(int64(r.Range(1, 300)))
+			h.Size()
+			for _, t := range ts {
+				h.IsSched(t.id)
+			}
+			h.Probe()
+			out.Count(map[int]string{0: "sameslot:near", 1: "sameslot:tvec0", 2: "sameslot:tvec1"}[level])
+			out.Count(map[int]string{0: "sameslot:cancel-head", 1: "sameslot:cancel-middle", 2: "sameslot:cancel-tail"}[(k/3)%3])
+			emit("sameslot", h)
 		})
 	}
 
